@@ -439,3 +439,96 @@ func (ev *initEval) intOf(env map[ssa.Value]ival, v ssa.Value) (int, bool) {
 	i, ok := constant.Int64Val(k)
 	return int(i), ok
 }
+
+// evalUnder evaluates an integer/boolean SSA value of a function under a binding of some of its values to
+// constants: arithmetic and comparisons, conversions, φ at the join of a branch whose condition is itself
+// evaluable, and calls of own functions with evaluable arguments (interpreted by the initialisation
+// interpreter).  Used to read a small pure computation (e.g. a round normalisation) as a function,
+// whatever its source form.
+func evalUnder(v ssa.Value, bind map[ssa.Value]constant.Value, depth int) (constant.Value, bool) {
+	if depth > 12 || v == nil {
+		return nil, false
+	}
+	if k, ok := bind[v]; ok {
+		return k, true
+	}
+	switch x := v.(type) {
+	case *ssa.Const:
+		if x.Value == nil {
+			return nil, false
+		}
+		return x.Value, true
+	case *ssa.Convert:
+		return evalUnder(x.X, bind, depth+1)
+	case *ssa.ChangeType:
+		return evalUnder(x.X, bind, depth+1)
+	case *ssa.UnOp:
+		if x.Op == token.NOT {
+			if k, ok := evalUnder(x.X, bind, depth+1); ok && k.Kind() == constant.Bool {
+				return constant.MakeBool(!constant.BoolVal(k)), true
+			}
+		}
+		return nil, false
+	case *ssa.BinOp:
+		a, ok1 := evalUnder(x.X, bind, depth+1)
+		b, ok2 := evalUnder(x.Y, bind, depth+1)
+		if !ok1 || !ok2 {
+			return nil, false
+		}
+		switch x.Op {
+		case token.EQL, token.NEQ, token.LSS, token.LEQ, token.GTR, token.GEQ:
+			return constant.MakeBool(constant.Compare(a, x.Op, b)), true
+		case token.ADD, token.SUB, token.MUL:
+			return constant.BinaryOp(a, x.Op, b), true
+		}
+		return nil, false
+	case *ssa.Phi:
+		blk := x.Block()
+		idom := blk.Idom()
+		for idom != nil {
+			if iff, ok := idom.Instrs[len(idom.Instrs)-1].(*ssa.If); ok {
+				c, okc := evalUnder(iff.Cond, bind, depth+1)
+				if !okc || c.Kind() != constant.Bool {
+					return nil, false
+				}
+				taken := idom.Succs[1]
+				if constant.BoolVal(c) {
+					taken = idom.Succs[0]
+				}
+				for i, p := range blk.Preds {
+					viaTaken := (p == idom && taken == blk) || p == taken || taken.Dominates(p)
+					if taken == blk {
+						viaTaken = p == idom
+					}
+					if viaTaken {
+						return evalUnder(x.Edges[i], bind, depth+1)
+					}
+				}
+				return nil, false
+			}
+			idom = idom.Idom()
+		}
+		return nil, false
+	case *ssa.Call:
+		g := x.Call.StaticCallee()
+		if g == nil || g.Blocks == nil || g.Pkg == nil || !ownPkgPath(g.Pkg.Pkg.Path()) {
+			return nil, false
+		}
+		var args []ival
+		for _, a := range x.Call.Args {
+			k, ok := evalUnder(a, bind, depth+1)
+			if !ok {
+				return nil, false
+			}
+			args = append(args, k)
+		}
+		ev := &initEval{prog: g.Prog, globals: map[*ssa.Global]*icell{}}
+		res := ev.call(g, args, 0, g.Pkg)
+		if ev.fail != "" || len(res) != 1 {
+			return nil, false
+		}
+		k, ok := res[0].(constant.Value)
+		return k, ok
+	}
+	return nil, false
+}
